@@ -24,9 +24,12 @@ type Program struct {
 	Contracts       map[string]*Contract    // key: pkgPath + "::" + name ; externals: "ext::" + name
 	ConFiles        []string
 	Findings        map[string]*Finding
-	Orphans         []*Contract       // contracts whose function does not exist in the current tree
-	ProductProblems []ProductProblem  // lockstep products that could not be built
-	Overlay         map[string][]byte // generated files (path inside the repository -> content)
+	Orphans         []*Contract             // contracts whose function does not exist in the current tree
+	ProductProblems []ProductProblem        // lockstep products that could not be built
+	Overlay         map[string][]byte       // generated files (path inside the repository -> content)
+	Locals          map[string][]localEntry // recorded parameters and locals of the functions under contract (locals.go)
+	renMu           sync.Mutex
+	Renames         map[string]bool
 	Invariants      []*Clause
 	NonNilDyn       map[string]bool
 
@@ -146,6 +149,7 @@ func Load(repo string, extDir string) (*Program, error) {
 			}
 		}
 	}
+	P.loadLocals(extDir)
 	if extDir != "" {
 		ext, _ := filepath.Glob(filepath.Join(extDir, "*.lvc"))
 		sort.Strings(ext)
@@ -351,6 +355,15 @@ func (P *Program) fnKey(fn *ssa.Function) string {
 		return "?::" + fn.String()
 	}
 	return pkg.Pkg.Path() + "::" + fn.RelString(pkg.Pkg)
+}
+
+func (P *Program) noteRename(fn *ssa.Function, from, to string) {
+	P.renMu.Lock()
+	defer P.renMu.Unlock()
+	if P.Renames == nil {
+		P.Renames = map[string]bool{}
+	}
+	P.Renames[P.fnKey(fn)+": "+from+" -> "+to] = true
 }
 
 // ContractOf returns the contract attached to fn (in-package or external).
